@@ -893,7 +893,7 @@ func genTree(rnd *hk.Rand, depth, budget int, wf bool) []*ptree {
 	var ts []*ptree
 	n := rnd.Intn(4)
 	if depth == 0 {
-		n = 1 + rnd.Intn(4)
+		n = 1 + rnd.Intn(6)
 	}
 	for i := 0; i < n && budget > 0; i++ {
 		t := &ptree{}
@@ -904,7 +904,7 @@ func genTree(rnd *hk.Rand, depth, budget int, wf bool) []*ptree {
 			t.size = uint64(rnd.Intn(4))
 		case k < 6 || depth >= 3:
 			t.kind = 'b'
-			t.data = rnd.Bytes(rnd.Intn(9))
+			t.data = rnd.Bytes(rnd.Intn(11))
 			// distinct, recognisable bytes
 			for j := range t.data {
 				t.data[j] = byte(1 + rnd.Intn(250))
@@ -994,7 +994,7 @@ func (g *gen) readerCase(ts []*ptree, exhaustive bool) {
 	if wf {
 		want = denote(ts)
 		r.Hit("tree:wf")
-		r.Hit(fmt.Sprintf("tree:depth%d", treeDepth(ts)))
+		r.Hit(fmt.Sprintf("rtree:depth%d", treeDepth(ts)))
 	} else {
 		r.Hit("tree:illformed")
 	}
@@ -1032,7 +1032,7 @@ func (g *gen) readerCase(ts []*ptree, exhaustive bool) {
 			}
 		}
 	} else {
-		for i := 0; i < 40; i++ {
+		for i := 0; i < 150; i++ {
 			off := uint64(g.r.R.Intn(int(size) + 2))
 			n := uint64(g.r.R.Intn(int(size) + 3))
 			check("readat", off, n)
@@ -1167,7 +1167,11 @@ func (g *gen) writerCase(wc writeCase) {
 			r.Fail("file-range-read-differs", fmt.Sprintf("%s: ReadAt(off=%d,len=%d) = %d,%v", short, off, l, got, err), "", "", []string{line})
 		}
 	}
-	// mechanism counters
+	// mechanism counters: which of the real rolling-checksum split positions became chunk boundaries
+	if len(res.leaves) > 0 {
+		r.Hit("order:file-blob-after-all-parts")
+	}
+	g.splitStats(res)
 	for _, s := range res.leaves {
 		switch {
 		case s == chunkCap:
@@ -1185,6 +1189,48 @@ func (g *gen) writerCase(wc writeCase) {
 	r.Hit(fmt.Sprintf("tree:depth%d", res.depth))
 	if len(res.leaves) > 1 {
 		r.Sample(map[string]any{"kind": "write", "op": short, "impl": res.out[:min(len(res.out), 160)]})
+	}
+}
+
+// splitStats classifies every position at which the real rollsum reported a split.
+func (g *gen) splitStats(res writeResult) {
+	r := g.r
+	bounds := map[int]bool{}
+	var starts []int
+	b := 0
+	for _, s := range res.leaves {
+		starts = append(starts, b)
+		b += int(s)
+		bounds[b] = true
+	}
+	rs := rollsum.New()
+	ci := 0
+	for i, c := range res.data {
+		rs.Roll(c)
+		n := i + 1
+		if !rs.OnSplit() {
+			continue
+		}
+		for ci+1 < len(starts) && starts[ci+1] < n {
+			ci++
+		}
+		blobSize := n - starts[ci]
+		switch {
+		case bounds[n] && blobSize == chunkCap:
+			r.Hit("split:coincides-with-cap")
+		case bounds[n] && n == 256<<10:
+			r.Hit("split:coincides-with-first-chunk")
+		case bounds[n]:
+			r.Hit("split:honoured")
+		case res.eofFrom >= 0 && n > res.eofFrom && n > 256<<10 && blobSize > 64<<10:
+			r.Hit("split:ignored-sawEOF")
+		case n <= 256<<10:
+			r.Hit("split:ignored-before-first-chunk")
+		case blobSize <= 64<<10:
+			r.Hit("split:ignored-chunk-too-small")
+		default:
+			r.Fail("write-split-not-honoured", fmt.Sprintf("rollsum split at %d (chunk would be %d bytes) is not a chunk boundary", n, blobSize), "", "", nil)
+		}
 	}
 }
 
@@ -1232,7 +1278,7 @@ func Run(r *hk.Run) {
 	lengths := []int{0, 1, 2, 63, 64, 65, 32*K - 1, 32 * K, 32*K + 1, 64*K - 1, 64 * K, 64*K + 1, 256*K - 1, 256 * K, 256*K + 1,
 		256*K + 64*K, 256*K + 64*K + 1, 256*K + 64*K + 65, 1024*K - 1, 1024 * K, 1024*K + 1, 1024*K + 256*K, 1024*K + 256*K + 1}
 	if r.Thorough() {
-		lengths = append(lengths, 2048*K-1, 2048*K, 2048*K+1, 2304*K+1, 3*1024*K+17, 4*1024*K, 5*1024*K+12345)
+		lengths = append(lengths, 2048*K-1, 2048*K, 2048*K+1, 2304*K+1, 3*1024*K+17, 4*1024*K, 5*1024*K+12345, 8*1024*K+1)
 	} else {
 		lengths = append(lengths, 2048*K+1)
 	}
@@ -1248,7 +1294,7 @@ func Run(r *hk.Run) {
 			rs := readers()
 			for ri, rd := range rs {
 				// quick: the full cross product only below 300 KiB, a diagonal above
-				if !r.Thorough() && n > 300*K && (ki+ri+n)%4 != 0 {
+				if !r.Thorough() && n > 300*K && (ki+ri+n)%3 != 0 {
 					continue
 				}
 				if r.Thorough() && n > 1100*K && (ki+ri+n)%2 != 0 {
@@ -1261,23 +1307,23 @@ func Run(r *hk.Run) {
 			}
 		}
 	}
-	nRand := 12
+	nRand := 40
 	if r.Thorough() {
-		nRand = 120
+		nRand = 400
 	}
 	for i := 0; i < nRand; i++ {
 		n := rnd.Intn(2500 * K)
 		if r.Thorough() && i%10 == 0 {
-			n = rnd.Intn(7 * 1024 * K)
+			n = rnd.Intn(9 * 1024 * K)
 		}
 		rs := readers()
 		g.writerCase(writeCase{kinds[rnd.Intn(len(kinds))], rs[rnd.Intn(len(rs))], n})
 	}
 
 	// ---- (b) reader ----
-	nTrees := 120
+	nTrees := 500
 	if r.Thorough() {
-		nTrees = 1500
+		nTrees = 8000
 	}
 	r.Case("reader-trees")
 	// hand-made trees first: the witness of F-C15-1 and nested variants of it
@@ -1296,8 +1342,8 @@ func Run(r *hk.Run) {
 	}
 	for i := 0; i < nTrees; i++ {
 		wf := i%5 != 0
-		ts := genTree(rnd, 0, 14+rnd.Intn(12), wf)
-		if sumSizes(ts) > 40 {
+		ts := genTree(rnd, 0, 14+rnd.Intn(30), wf)
+		if sumSizes(ts) > 36 {
 			g.readerCase(ts, false)
 		} else {
 			g.readerCase(ts, true)
